@@ -16,14 +16,14 @@ SLEEP = 0.2
 MAX_QUERIES_PAST_DEADLINE = 3
 
 
-def run_under(prefix, texts, cpu, timeout, parallel=True, clock_jump=None):
+def run_under(prefix, texts, cpu, timeout, parallel=True, clock_jump=None, sigterm_ignored=False):
     import osaca.semantics.kernel_dg as kd
     fam = c05._FAM["x86"]
     mm, sem = fam.load()
     parser, kernel = dgfam.parsed_kernel("x86", texts, via_parse_file=True)
     sem.add_semantics(kernel)
     w = sched.World(prefix, cpu, max_idle_wakes=None if (timeout != -1 and timeout < 5) else 1,
-                    clock_jump=clock_jump)
+                    clock_jump=clock_jump, sigterm_ignored=sigterm_ignored)
     undo = sched.install(w, kd)
     old_thr = kd.KernelDG.INSTRUCTION_THRESHOLD
     kd.KernelDG.INSTRUCTION_THRESHOLD = 1 if parallel else 10 ** 6
@@ -47,7 +47,10 @@ def run_under(prefix, texts, cpu, timeout, parallel=True, clock_jump=None):
 
 def explore_config(item):
     kname, cpu, timeout, bound, first, parallel = item
-    texts = c16.KERNELS[kname]
+    # a kernel name ending in '!t' = the calling process ignores SIGTERM (inherited by workers)
+    sigterm_ignored = kname.endswith("!t")
+    kname_ = kname[:-2] if sigterm_ignored else kname
+    texts = c16.KERNELS[kname_]
     ref, ref_rep = c16.sequential(texts)
     ref_set = {(k, m, l) for k, m, l, r in ref}
     ref_r = RP.parse(ref_rep)
@@ -59,7 +62,8 @@ def explore_config(item):
     def run_one(prefix):
         w, g, kernel, err, left, elapsed, killed = run_under(
             prefix, texts, cpu, timeout, parallel,
-            clock_jump=(None if parallel else (abs(timeout) + 1000.0)))
+            clock_jump=(None if parallel else (abs(timeout) + 1000.0)),
+            sigterm_ignored=sigterm_ignored)
         obs = None
         if g is not None:
             rep = drive.strip_report(c05._FE["x86"].full_analysis(
@@ -121,13 +125,15 @@ def explore_config(item):
 
 
 def first_level(kname, cpu, timeout, depth, parallel=True):
-    texts = c16.KERNELS[kname]
+    sigterm_ignored = kname.endswith("!t")
+    texts = c16.KERNELS[kname[:-2] if sigterm_ignored else kname]
     frontier = [[]]
     for _ in range(depth):
         nxt = []
         for pre in frontier:
             w = run_under(pre, texts, cpu, timeout, parallel,
-                          clock_jump=(None if parallel else abs(timeout) + 1000.0))[0]
+                          clock_jump=(None if parallel else abs(timeout) + 1000.0),
+                          sigterm_ignored=sigterm_ignored)[0]
             if len(w.choices) <= len(pre):
                 nxt.append(pre)
                 continue
@@ -199,7 +205,10 @@ def run(ctx):
             ("k5", 3, 0.4, 2, True), ("k4", 2, 50, 2, True), ("k4", 2, -1, None, True),
             # single-process search: the clock may jump past the timeout at any query
             ("k4", 1, 1, None, False), ("k5", 1, 1, None, False), ("k6", 1, 2, None, False),
-            ("k6", 1, -1, None, False)]
+            ("k6", 1, -1, None, False),
+            # kernels 1500 lines into a file; a calling process that ignores SIGTERM
+            ("k4hi", 2, 0.2, None, True), ("k6hi", 3, -1, 2, True), ("k4hi", 1, 1, None, False),
+            ("k4!t", 2, 0.2, None, True), ("k5!t", 3, 0.4, 2, True)]
     if ctx.thorough:
         plan += [("k6", 2, 0.4, None, True), ("k5", 3, 0.4, 4, True), ("k6", 3, 0.2, 3, True),
                  ("k4", 3, 0.4, None, True), ("k6", 5, 0.2, 2, True)]
